@@ -230,7 +230,31 @@ def rise_h0 (altitude : Num) : Num := -0.83 - 2.076 * psqrt altitude / 60.0
 def rise_cos_om (lat sin_delta cos_delta altitude : Num) : Num :=
   (psin (pradians (rise_h0 altitude)) - psin (pradians lat) * sin_delta) / (pcos (pradians lat) * cos_delta)
 
-/-- Everything `rise_set` computes between `e = Epoch(year, month, day)` and the two final
+/-- Mean solar noon `jstar` (days from J2000): `frac = (10.0 + 32.184 + leap_seconds) / 86400.0`;
+    `cjd = e.jde() - 2451545.0 + frac`; `jstar = cjd - (float(longitude) / 360.0)`. -/
+def rise_jstar (ejde : Num) (leap : Int) (lon : Num) : Num :=
+  ejde - 2451545.0 + (10.0 + 32.184 + ofInt leap) / 86400.0 - (lon / 360.0)
+
+/-- Solar mean anomaly in degrees: `m = (357.5291 + 0.98560028 * jstar) % 360`. -/
+def rise_m (jstar : Num) : Num := pmod (357.5291 + 0.98560028 * jstar) 360.0
+
+/-- The sunrise equation's own ecliptic longitude of the Sun, in radians: `mr = radians(m)`;
+    `c = 1.9148 * sin(mr) + 0.02 * sin(2.0 * mr) + 0.0003 * sin(3.0 * mr)`;
+    `lambd = (m + c + 180.0 + 102.9372) % 360`; `lr = radians(lambd)`. -/
+def rise_lr (m : Num) : Num :=
+  let mr := pradians m
+  let c := 1.9148 * psin mr + 0.02 * psin (2.0 * mr) + 0.0003 * psin (3.0 * mr)
+  pradians (pmod (m + c + 180.0 + 102.9372) 360.0)
+
+/-- `sin_delta = sin(lr) * sin(radians(23.44))` -/
+def rise_sin_delta (m : Num) : Num := psin (rise_lr m) * psin (pradians 23.44)
+
+/-- The sunrise equation's own declination of the Sun (radians, `delta = asin(sin_delta)`) for the
+    day of `ejde`, the longitude and the leap-second count. -/
+def rise_delta (ejde : Num) (leap : Int) (lon : Num) : Num :=
+  pasin (rise_sin_delta (rise_m (rise_jstar ejde leap lon)))
+
+/-- Everything `rise_set` computes between `e = Epoch(year, month, iint(day))` and the two final
     `Epoch(...)` constructions: returns `(jtran, omega, cos_om)`.
     `ejde = e.jde()`, `leap = Epoch.leap_seconds(year, month)`, `lat`/`lon` the `_deg` of the
     Angles, `altitude` in metres.  `ValueError` stands for the latitude test and for
@@ -238,26 +262,15 @@ def rise_cos_om (lat sin_delta cos_delta altitude : Num) : Num :=
 def rise_set_core (ejde : Num) (leap : Int) (lat lon altitude : Num) : PyRes (Num × Num × Num) :=
   -- if latitude > limit or latitude < -limit: raise ValueError
   if plt rise_limit lat || plt lat (aNeg rise_limit) then .error .valueError else
-  -- frac = (10.0 + 32.184 + Epoch.leap_seconds(year, month)) / 86400.0
-  let frac : Num := (10.0 + 32.184 + ofInt leap) / 86400.0
-  -- cjd = e.jde() - 2451545.0 + frac
-  let cjd := ejde - 2451545.0 + frac
-  -- jstar = cjd - (float(longitude) / 360.0)
-  let jstar := cjd - (lon / 360.0)
-  -- m = (357.5291 + 0.98560028 * jstar) % 360 ; mr = radians(m)
-  let m := pmod (357.5291 + 0.98560028 * jstar) 360.0
-  let mr := pradians m
-  -- c = 1.9148 * sin(mr) + 0.02 * sin(2.0 * mr) + 0.0003 * sin(3.0 * mr)
-  let c := 1.9148 * psin mr + 0.02 * psin (2.0 * mr) + 0.0003 * psin (3.0 * mr)
-  -- lambd = (m + c + 180.0 + 102.9372) % 360 ; lr = radians(lambd)
-  let lambd := pmod (m + c + 180.0 + 102.9372) 360.0
-  let lr := pradians lambd
+  let jstar := rise_jstar ejde leap lon
+  let m := rise_m jstar
+  let lr := rise_lr m
   -- jtran = 2451545.5 + jstar + 0.0053 * sin(mr) - 0.0069 * sin(2.0 * lr)
-  let jtran := 2451545.5 + jstar + 0.0053 * psin mr - 0.0069 * psin (2.0 * lr)
+  let jtran := 2451545.5 + jstar + 0.0053 * psin (pradians m) - 0.0069 * psin (2.0 * lr)
   -- sin_delta = sin(lr) * sin(radians(23.44)); delta = asin(sin_delta); cos_delta = cos(delta)
-  let sin_delta := psin lr * psin (pradians 23.44)
+  let sin_delta := rise_sin_delta m
   if plt 1.0 (pabs sin_delta) then .error .valueError else
-  let delta := pasin sin_delta
+  let delta := rise_delta ejde leap lon
   let cos_delta := pcos delta
   -- corr = -0.83 - 2.076 * sqrt(altitude) / 60.0
   if plt altitude 0.0 then .error .valueError else
